@@ -65,6 +65,9 @@ def session(draw):
     if drop:
         plan.insert(draw(st.integers(0, len(plan))), {'do': 'drop', 'how': drop})
     local = draw(st.sampled_from([None, None, None, 0.0, 0.2, 2.0, 7.0]))
+    if drop in ('close', 'reset') and not lossy and draw(st.integers(0, 5)) == 0:
+        return {'kind': 'session', 'callers': callers[:2], 'plan': plan, 'local_disconnect': None, 'reconnect_ok': True, 'slow_reconnect': True,
+                'schedule': draw(st.lists(st.integers(0, 4), min_size=10, max_size=250))}
     if drop in ('close', 'reset') and not lossy and draw(st.integers(0, 2)) == 0:
         # the node is reachable again at once: the automatic reconnect succeeds - possibly while the user shuts down
         return {'kind': 'session', 'callers': callers, 'plan': plan, 'local_disconnect': local, 'reconnect_ok': True,
@@ -133,6 +136,8 @@ class Peer:
                 self.push('ISSE&SINE2020,SECoP,V2019-09-16,v1.0')
         elif action == 'describe':
             delay = w.case.get('describe_delay') if not w.described else 0
+            if w.case.get('slow_reconnect') and self.index == 1:
+                delay = 11.0      # the first reconnect attempt meets a node which is too slow (busy after its restart); later ones do not
             w.described = True
             if delay:
                 # a slow node: the description takes a while (less than the time-out of the client)
@@ -334,6 +339,16 @@ def run_session(case, preempt=None):
         for t in threads:
             t.join()
         peer_thread.join()
+        if case.get('slow_reconnect'):
+            # after a failed reconnect attempt the client keeps trying: some time later it is connected again and usable
+            dsched.v_sleep(40.0)
+            out['state_late'] = (client.state, client.online)
+            t0 = dsched.v_time()
+            try:
+                r = client.request('read', 'm:value')
+                out['probe'] = ('reply', r[0], dsched.v_time() - t0)
+            except Exception as e:   # noqa
+                out['probe'] = ('exc', type(e).__name__, str(e), dsched.v_time() - t0)
         world.stop_stream = True
         if stream_thread:
             stream_thread.join()
@@ -389,6 +404,11 @@ def check(ctx, case, preempt=None):
         if out[key] is not None:
             ctx.finding(f'disconnect-raises:{type(out[key]).__name__}', sub, repr(out[key])[:300])
             return
+    if case.get('slow_reconnect') and world.dropped and 'probe' in out:
+        # what the client does after a reconnect attempt which failed half way is outside the statement (it stays in state
+        # 'reconnecting' on a connection which was never described and activated again - noted in notes/round2_suspects.md):
+        # only recorded; the clauses about callers, shutdown and threads below apply as always
+        ctx.label(f'after-failed-reconnect-attempt:state-{out.get("state_late", ("?",))[0]}:probe-{out["probe"][0]}')
     alive = [t.name for t in s.threads if t.state != 'done']
     if alive:
         ctx.finding('threads-alive-after-disconnect', sub, repr(alive))
@@ -420,7 +440,8 @@ def check(ctx, case, preempt=None):
             ctx.label(f'unsendable-request:{a}')
             continue
         # (3) nobody waits longer than the time-outs of request(): 3 s for queueing + 10 s for the reply
-        if elapsed > 13.0 + 1.5:
+        # (+ 10 s when the request first has to wait for a connection attempt of another thread which meets a slow node)
+        if elapsed > 13.0 + 1.5 + (10.0 if case.get('slow_reconnect') else 0.0):
             ctx.finding('caller-blocked-too-long', sub, f'caller {i} {c["key"]}: {elapsed:.1f} s, result {results[i][:3]!r}')
             return
         if action == 'describe':
